@@ -186,6 +186,11 @@ exactly this, because the key is already in caller order) -/
 def freshPair (dflt : α) (pos1 pos2 : Nat → Option β) (k : Nat × Nat) : WManifold α β :=
   ⟨k.1, k.2, pos1 k.1, pos2 k.2, dflt⟩
 
+/-- the `Entry::Vacant` manifold of `contact_manifolds_heightfield_shape` (keys = cell / triangle ids):
+`ContactManifold::with_data(id1, id2, default)` with `(id1, id2) = if flipped { (0, i) } else { (i, 0) }`, no part poses -/
+def freshCell (flipped : Bool) (dflt : α) (i : Nat) : WManifold α β :=
+  if flipped then ⟨0, i, none, none, dflt⟩ else ⟨i, 0, none, none, dflt⟩
+
 end Keyed
 
 /-! ## 3-D `contact_manifold_capsule_capsule` (`contact_manifolds_capsule_capsule.rs`, `dim3`)
